@@ -80,6 +80,7 @@ fn filt_name(f: StmFilter) -> &'static str {
         StmFilter::AsciiHex => "ascii_hex",
         StmFilter::Lzw => "lzw",
         StmFilter::HexFlate => "hex_flate",
+        StmFilter::Ascii85 => "ascii85",
     }
 }
 fn filt_from(s: &str) -> StmFilter {
@@ -88,6 +89,7 @@ fn filt_from(s: &str) -> StmFilter {
         "ascii_hex" => StmFilter::AsciiHex,
         "lzw" => StmFilter::Lzw,
         "hex_flate" => StmFilter::HexFlate,
+        "ascii85" => StmFilter::Ascii85,
         _ => StmFilter::None,
     }
 }
@@ -343,7 +345,7 @@ pub fn gen_history(rng: &mut Rng, tier: Tier) -> History {
     let nvals = if long_small { 3 } else { 3 + rng.below(10) as u32 };
     let max_revs = if tier == Tier::Quick { 4 } else { 8 };
     let n_revs = if long_small { 10 + rng.usize(14) } else { 1 + rng.usize(max_revs) };
-    let filters = [StmFilter::None, StmFilter::FlateStored, StmFilter::AsciiHex, StmFilter::Lzw, StmFilter::FlateStored, StmFilter::HexFlate];
+    let filters = [StmFilter::None, StmFilter::FlateStored, StmFilter::AsciiHex, StmFilter::Lzw, StmFilter::Ascii85, StmFilter::HexFlate];
     // swarm: which writer styles are enabled in this run
     let allow_stream = rng.chance(3, 4);
     let allow_classic = !allow_stream || rng.chance(3, 4);
